@@ -98,6 +98,16 @@ type DecimateState struct {
 // ConfigurePulseLengths sets this stream's pulse length and # of presamples.
 // Also removes any existing projectors and basis.
 func (dsp *DataStreamProcessor) ConfigurePulseLengths(nsamp, npre int) error {
+	// Refuse lengths that edge-multi triggering cannot work with BEFORE changing anything: a refused request
+	// must not leave the lengths installed (the next data block would index before the start of the stream).
+	if dsp.EdgeMulti {
+		proposed := dsp.EMTState
+		proposed.nsamp = int32(nsamp)
+		proposed.npre = int32(npre)
+		if !proposed.valid() {
+			return fmt.Errorf("dsp.EMTState in invalid")
+		}
+	}
 	// if nsamp or npre is invalid, panic, do not silently ignore
 	if dsp.NSamples != nsamp || dsp.NPresamples != npre {
 		dsp.removeProjectorsBasis()
@@ -118,6 +128,16 @@ func (dsp *DataStreamProcessor) ConfigurePulseLengths(nsamp, npre int) error {
 
 // ConfigureTrigger sets this stream's trigger state.
 func (dsp *DataStreamProcessor) ConfigureTrigger(state TriggerState) error {
+	// Refuse an invalid edge-multi state BEFORE installing it: a refused request must not take effect
+	// (the next data block would index before the start of the stream).
+	if state.EdgeMulti {
+		proposed := state.EMTState
+		proposed.nsamp = int32(dsp.NSamples)
+		proposed.npre = int32(dsp.NPresamples)
+		if !proposed.valid() {
+			return fmt.Errorf("dsp.EMTState in invalid")
+		}
+	}
 	dsp.TriggerState = state
 	// Forget the last trigger, so that all channels will auto trigger at the same starting point
 	// when you send new trigger settings. "Forget" means far in the past, as in a new processor:
